@@ -106,13 +106,22 @@ impl Shard {
         }
     }
 
-    /// Returns whether the file `name` exists in this shard.
-    fn file_exists(&mut self, name: &str) -> bool {
+    /// Returns whether the file `name` exists in this shard.  Only
+    /// "file not found" errors mean that the file is absent: any
+    /// other failure is reported to the caller.
+    fn file_exists(&mut self, name: &str) -> Result<bool> {
+        // Never build a path from an invalid name.
+        crate::cache_dir::validate_file_name(name)?;
+
         self.shard_dir.push(name);
         let result = std::fs::metadata(&self.shard_dir);
         self.shard_dir.pop();
 
-        result.is_ok()
+        match result {
+            Ok(_) => Ok(true),
+            Err(e) if crate::benign_error::is_absent_file_error(&e) => Ok(false),
+            Err(e) => Err(e),
+        }
     }
 }
 
@@ -324,7 +333,7 @@ impl Cache {
 
         // If the file does not already exist in the secondary shard,
         // use the primary.
-        if !shard.file_exists(key.name) {
+        if !shard.file_exists(key.name)? {
             shard = shard.replace_shard(h1);
         }
 
@@ -361,7 +370,7 @@ impl Cache {
 
         // If the file does not already exist in the secondary shard,
         // use the primary.
-        if !shard.file_exists(key.name) {
+        if !shard.file_exists(key.name)? {
             shard = shard.replace_shard(h1);
         }
 
